@@ -223,4 +223,19 @@ func extractC17b(l *lean) {
 	l.def("foldRuneBody", "String", fmt.Sprintf("%q", foldBody), foldBody)
 	l.def("ambiguousMemberBody", "String", fmt.Sprintf("%q", ambBody), ambBody)
 	l.def("caseVariantMemberBody", "String", fmt.Sprintf("%q", cvBody), cvBody)
+
+	// ---- vcr/verifier: which kid the resolver is asked for (resolveSigningKey), and the kid <-> issuer tests
+	rsk, kidTest := "MISSING", "MISSING"
+	if fd := funcDecl(svF, "resolveSigningKey"); fd != nil {
+		rsk = c17Src(fd.Body)
+	}
+	if fd := funcDecl(svF, "jwtSignature"); fd != nil {
+		for _, c := range c17ErrConds(fd) {
+			if strings.Contains(c, "keyID") {
+				kidTest = c
+			}
+		}
+	}
+	l.def("resolveSigningKeyBody", "String", fmt.Sprintf("%q", rsk), rsk)
+	l.def("vcJwtKidIssuerTest", "String", fmt.Sprintf("%q", kidTest), kidTest)
 }
